@@ -66,7 +66,7 @@ fn panic_message(p: &Box<dyn std::any::Any + Send>) -> String {
 fn blocked_ok(w: &World, child: u32) -> bool {
     let r = &w.children[child as usize];
     if !r.is_inner {
-        return r.spec.never;
+        return r.spec.never || r.seq >= r.never_after;
     }
     // find the inner combinator whose parent_child is this child
     for (k, c) in w.combs.iter().enumerate() {
@@ -398,7 +398,7 @@ pub fn run(subj: Box<dyn Subject>) -> EndKind {
                     None => comb_pending_ok(w, 0),
                 };
                 if let Err(m) = verdict {
-                    let nevers = w.children.iter().any(|r| r.spec.never);
+                    let nevers = w.children.iter().any(|r| r.spec.never || r.never_after != u16::MAX);
                     w.violate(1, || m.clone());
                     w.violate(home, || m.clone());
                     if nevers {
